@@ -168,19 +168,22 @@ Fixpoint wf_expr (lex : bool) (e : expr) {struct e} : bool :=
 Definition wf_kws (lex : bool) (kw : list (str * expr)) : bool :=
   forallb (fun ke => wf_expr lex (snd ke)) kw.
 
-Fixpoint wf_stmt (lex brk : bool) (s : stmt) {struct s} : bool :=
+(* `okn`: the names an include may refer to (in a template library: the templates listed after
+   this one, Spec/Stmt.v template_sem) *)
+Fixpoint wf_stmt (okn : str -> bool) (lex brk : bool) (s : stmt) {struct s} : bool :=
   match s with
-  | SText _ | SInclude _ => true
+  | SText _ => true
+  | SInclude n => okn n
   | SPrint e | SAssign _ _ e => wf_expr lex e
   | SIf c body els =>
-      wf_expr lex c && forallb (wf_stmt lex brk) body && forallb (wf_stmt lex brk) els
+      wf_expr lex c && forallb (wf_stmt okn lex brk) body && forallb (wf_stmt okn lex brk) els
   | SFor _ val target body els =>
       wf_expr lex target && match val with [] => false | _ => true end
-      && forallb (wf_stmt true true) body && forallb (wf_stmt lex brk) els
+      && forallb (wf_stmt okn true true) body && forallb (wf_stmt okn lex brk) els
   | SSetBlock _ _ body fs =>
-      forallb (wf_stmt lex false) body && forallb (fun f => wf_kws lex (snd f)) fs
-  | SFilter _ kw body => wf_kws lex kw && forallb (wf_stmt lex false) body
+      forallb (wf_stmt okn lex false) body && forallb (fun f => wf_kws lex (snd f)) fs
+  | SFilter _ kw body => wf_kws lex kw && forallb (wf_stmt okn lex false) body
   | SBreak | SContinue => brk
   end.
 
-Definition wf_body (body : list stmt) : bool := forallb (wf_stmt false false) body.
+Definition wf_body (okn : str -> bool) (body : list stmt) : bool := forallb (wf_stmt okn false false) body.
